@@ -164,7 +164,6 @@ func (cs *clusterSim) writerLoop(t *Tape) {
 // writeOnce runs one write transaction against db on node p.
 func (cs *clusterSim) writeOnce(p *Node, db string, t *Tape) {
 	r := cs.r
-	store := p.Store
 	key := p.Name + "/" + db
 	// the application's connections on nodes that are no longer written to are
 	// closed before it writes elsewhere (an idle WAL connection holds SHARED for
@@ -183,6 +182,14 @@ func (cs *clusterSim) writeOnce(p *Node, db string, t *Tape) {
 			delete(cs.pool, k)
 		}
 	}
+	if pc := cs.pool[key]; pc != nil && !(pc.store == p.Store && p.Up && !p.Exited) {
+		delete(cs.pool, key)
+		pc.c.Close() // the process it talked to is gone
+	}
+	// Closing connections yields to the scheduler (the node may be restarted
+	// meanwhile): the store this transaction is accounted against is read here,
+	// together with the binding of the connection, with no yield in between.
+	store := p.Store
 	var c *Conn
 	if pc := cs.pool[key]; pc != nil {
 		delete(cs.pool, key)
@@ -190,7 +197,9 @@ func (cs *clusterSim) writeOnce(p *Node, db string, t *Tape) {
 			c = pc.c
 			r.Count("writer.conn-reused")
 		} else {
-			pc.c.Close() // the process it talked to is gone
+			// it went stale during the yields above: dropped without a close call
+			// (its process is gone); nothing is accounted against it
+			r.Count("writer.conn-dropped")
 		}
 	}
 	if c == nil {
